@@ -419,7 +419,7 @@ var sweepMurmur32q = pbt.RegisterSweep(pbt.Sweep{Prop: "C15", Name: "murmur-uint
 
 func TestMurmurSweep(t *testing.T) {
 	if pbt.Thorough() {
-		sweepMurmur32.Check(t, 2)
+		sweepMurmur32.Check(t, sweepWorkers())
 	} else {
 		sweepMurmur32q.Check(t, 4)
 	}
